@@ -71,6 +71,9 @@ struct Sys {
     vis_at_init: Vis,
     /// Has the repository been public at any point of this run (including the start)?
     ever_public: bool,
+    /// The node's own inventory announcements listing the repository (by timestamp), with the
+    /// circumstances (`era_now`) at the time they were first seen in the outbox or the gossip store.
+    inv_era: BTreeMap<u64, &'static str>,
     connected: BTreeSet<usize>,
     subscribed: BTreeSet<usize>,
     steps: u64,
@@ -136,12 +139,45 @@ impl Sys {
             .init(local.public_key(), cfg.features(), &cfg.alias, &UserAgent::default(), svc::t0().into(), cfg.external_addresses.iter())
             .unwrap();
         let s = start(db.clone(), storage(rid, &peers, vis), rid, svc::t0());
-        let mut sys = Sys { svc: s, db, peers, rid, vis, vis_at_init: vis, ever_public: vis == Vis::Public, connected: BTreeSet::new(), subscribed: BTreeSet::new(), steps: 0, gossips: 0, restarts: 0 };
+        let mut sys = Sys { svc: s, db, peers, rid, vis, vis_at_init: vis, ever_public: vis == Vis::Public, inv_era: BTreeMap::new(), connected: BTreeSet::new(), subscribed: BTreeSet::new(), steps: 0, gossips: 0, restarts: 0 };
         let ios = svc::drain(&mut sys.svc);
         let mut l = vec![];
         let mut v = vec![];
         sys.inspect(ios, "init", &mut l, &mut v);
+        sys.scan_store();
         sys
+    }
+
+    /// The node's own stored inventory announcement, if it lists the repository.
+    fn stored_own_inventory(&self) -> Option<u64> {
+        let local = *svc::local_signer().public_key();
+        self.svc.database().gossip().filtered(&Filter::default(), Timestamp::MIN, Timestamp::MAX).expect("store").map(|r| r.expect("row")).find_map(|a| match &a.message {
+            AnnouncementMessage::Inventory(inv) if a.node == local && inv.inventory.iter().any(|r| *r == self.rid) => Some(*inv.timestamp),
+            _ => None,
+        })
+    }
+
+    /// The circumstances under which an inventory announcement that lists the repository is
+    /// signed right now.
+    fn era_now(&self) -> &'static str {
+        if self.vis == Vis::Public {
+            "signed-while-public"
+        } else if self.vis_at_init == Vis::Public {
+            "made-private-while-running"
+        } else if self.ever_public {
+            "private-since-before-the-last-restart"
+        } else {
+            "never-public"
+        }
+    }
+
+    /// End of every step (visibility changes are steps of their own): an inventory announcement
+    /// listing the repository that is seen for the first time was signed during this step.
+    fn scan_store(&mut self) {
+        if let Some(ts) = self.stored_own_inventory() {
+            let era = self.era_now();
+            self.inv_era.entry(ts).or_insert(era);
+        }
     }
 
     fn allowed(&self, p: usize) -> bool {
@@ -182,10 +218,14 @@ impl Sys {
                             AnnouncementMessage::Inventory(inv) if a.node == local => {
                                 if inv.inventory.iter().any(|r| *r == self.rid) {
                                     labels.push("inventory-lists-repo".into());
+                                    // Under which circumstances was this announcement signed (= first
+                                    // seen)? While the repository was public (and it is sent again
+                                    // now), after it became private while the node was running, or by
+                                    // a node that (re)started with the repository already private?
+                                    let now = self.era_now();
+                                    let era = *self.inv_era.entry(*inv.timestamp).or_insert(now);
                                     if self.vis != Vis::Public {
-                                        // Was the repository already private when the node (re)started, or
-                                        // did it become private while the node was running?
-                                        let origin = if self.ever_public { "made-private-while-running" } else { "never-public" };
+                                        let origin = if era == "signed-while-public" { "resent-announcement-signed-while-public" } else { era };
                                         let _ = phase;
                                         vs.push(Violation::new(
                                             format!("C11/private-in-inventory/{origin}"),
@@ -346,6 +386,9 @@ impl System for Sys {
             }
             Ev::SetVis(v) => self.set_vis(*v),
         }
+        if !matches!(ev, Ev::SetVis(_)) {
+            self.scan_store();
+        }
         labels.sort();
         labels.dedup();
         labels.insert(0, phase.to_string());
@@ -375,6 +418,8 @@ impl System for Sys {
         let _ = BTreeMap::<u8, u8>::new();
         json!({
             "rows": rows, "vis": format!("{:?}", self.vis), "vis_at_init": format!("{:?}", self.vis_at_init), "ever_public": self.ever_public,
+            // Which era the stored own inventory (the one a subscription replays) is from.
+            "stored_inv_era": self.stored_own_inventory().map(|ts| self.inv_era.get(&ts).copied().unwrap_or("unseen")),
             "connected": self.connected, "subscribed": self.subscribed,
             "fetching": svc::fetching_key(&self.svc).len(),
         })
